@@ -1,0 +1,29 @@
+//go:build verif
+
+// Contracts for gzv (contract-based deductive verification, /verif). Comment-only file.
+package mathx
+
+//@ func AtLeast
+//@   property C01 C02
+//@   pure
+//@   ensures result == max(x, lower)
+//@   modifies nothing
+//@ func AtMost
+//@   property C02
+//@   pure
+//@   ensures result == min(x, upper)
+//@   modifies nothing
+//@ func Between
+//@   property C02
+//@   pure
+//@   requires lower <= upper
+//@   ensures result == min(max(x, lower), upper)
+//@   modifies nothing
+
+// TrueOnProba(p): true with probability p. What the sequential contract can say: it can only answer true when p > 0, and must when p >= 1.
+//@ func (p *Proba) TrueOnProba
+//@   property C01
+//@   float real
+//@   flag nolock
+//@   ensures implies(truth, proba > 0.0) && implies(proba >= 1.0, truth)
+//@   modifies nothing
